@@ -467,7 +467,7 @@ fn gen_stream(gen: usize, rng: &mut Rng, enc: &mut Encoder, stream_hint: u32) ->
         3 => hostile_chunks(rng, enc.chunk_size),
         6 => {
             // more than 1024 tiny valid messages in one stream (loops with a bound per call)
-            let n = *rng.pick(&[1025usize, 1026, 1030, 1100, 2049, 2100]);
+            let n = if rng.chance(1, 25) { *rng.pick(&[65_537usize, 70_000]) } else { *rng.pick(&[1025usize, 1026, 1030, 1100, 2049, 2100]) };
             let mut out = Vec::new();
             let mut ts = rng.u32() % 1000;
             for i in 0..n {
